@@ -365,6 +365,52 @@ fn pair_histories(ctx: &Ctx, acc: &mut Acc, l: L, nwords: usize) {
         }
     }
     acc.count("pair_history_first_words", wide.len() as u64);
+    // (c) single words: every ordered pair of (vocabulary word | inflected ordinal of a few ranks, compound ones
+    // included | one-word spelling of a few numbers) as two validations and two rewritings on one interpreter —
+    // caches keyed by a lemma, a length or an address show here
+    let mut words: Vec<String> = crate::vocab::number_words(l);
+    for rank in [1u64, 2, 3, 8, 11, 20, 21, 22, 100, 342, 1000] {
+        if rank > ordspell::max_rank(l) {
+            continue;
+        }
+        for v in [Var::default(), Var { split: true, ..Var::default() }] {
+            for f in ordspell::ord_forms(l, rank, v) {
+                if !f.text.contains(' ') && !words.contains(&f.text) {
+                    words.push(f.text);
+                }
+            }
+        }
+    }
+    for n in [14u64, 21, 22, 100, 101, 120, 200, 1000, 1100, 2000, 3456, 20_000, 100_000] {
+        let w = s(n);
+        if !w.contains(' ') && !words.contains(&w) {
+            words.push(w);
+        }
+    }
+    let obs1 = |lang: &Language, p: &str| -> String { guard(|| format!("{:?}|{}", text2digits(p, lang).ok(), replace_numbers_in_text(p, lang, 0.0))).unwrap_or_else(|e| e) };
+    let expected3: Vec<String> = words.iter().map(|p| obs1(&l.facade(), p)).collect();
+    for p in &words {
+        for (j, q) in words.iter().enumerate() {
+            acc.states += 1;
+            acc.transitions += 2;
+            acc.traces += 1;
+            let lang = l.facade();
+            let _ = obs1(&lang, p);
+            let second = obs1(&lang, q);
+            if second != expected3[j] {
+                ctx.report(acc, Violation {
+                    lang: l.code().into(),
+                    entry: "history".into(),
+                    input: format!("calls on {p:?}; then calls on {q:?} (same interpreter)"),
+                    threshold: None,
+                    clause: "result(c | one earlier call) = result(c | fresh interpreter)".into(),
+                    expected: expected3[j].clone(),
+                    observed: second,
+                });
+            }
+        }
+    }
+    acc.count("pair_history_single_words", words.len() as u64);
 }
 
 /// Histories across languages on the SAME texts with different thresholds: a cache or global keyed
